@@ -1022,9 +1022,13 @@ class Interp:
             if isinstance(v, np.ndarray) and v.dtype == object:
                 if v.size and all(isinstance(x, (bool, np.bool_)) or x in (sp.true, sp.false) for x in v.ravel()):
                     return np.array([bool(x) for x in v.ravel()]).reshape(v.shape)
-                return np.array([as_int(x) for x in v.ravel()]).reshape(v.shape)
+                return np.array([as_int(x) for x in v.ravel()], dtype=int).reshape(v.shape)
             if isinstance(v, list):
                 return [as_int(x) for x in v]
+            if isinstance(v, np.ndarray) and v.dtype.kind == "f":
+                # arithmetic on an (empty) integer index array may have produced a float array: integral values index as integers
+                if all(float(x).is_integer() for x in v.ravel()):
+                    return v.astype(int)
             return v
         if isinstance(v, tuple):
             return tuple(x if (isinstance(x, slice) or x is None or x is Ellipsis) else
